@@ -5,6 +5,7 @@ MaxThreads = 2
 Cap = 2
 AllowRetire = TRUE
 FixRetire = FALSE
+FixReset = TRUE
 INVARIANTS AtMostOnce JoinAfterDone QueueOK
 PROPERTY Live
 CONSTANT defaultInitValue = defaultInitValue
